@@ -102,8 +102,10 @@ def histogram(line):
         keys.append("M=%s" % (m if m <= 3 else "4-15" if m <= 15 else "16+"))
     if "hist" in f:
         keys.append("reconfigurations=%d" % len(re.findall(r"c\d+", f["hist"])))
-    if f.get("big") == "1":
-        keys.append("indices-outside-ssize_t")
+    if "bg" in f:
+        keys.append("custom-background")
+    if f.get("cls") == "dist" and re.search(r"(^|[,/])-?\d{4,}", f.get("rows", "")):
+        keys.append("dist:score-range>1000")
     return keys
 
 
@@ -157,7 +159,9 @@ C18_SPEC = dict(
          "generated inputs (EncodedSequence, StripedSequence via stripe() and EncodedSequence.stripe() with histories of "
          "views, copy() and ScoringMatrix.calculate() of widths 1..71 reconfiguring the sequence in place, CountMatrix "
          "from a dict with omitted symbols and from create(), WeightMatrix from normalize()/Motif.pwm, ScoringMatrix "
-         "from a dict and reverse_complement(), ScoreDistribution, StripedScores from calculate(); DNA and protein; "
+         "from a dict (optionally with a background: non-uniform, wildcard mass, real sum slightly above 1) and "
+         "reverse_complement(), ScoreDistribution (incl. score ranges beyond 1000, offsets beyond i32, constant "
+         "matrices), StripedScores from calculate(); DNA and protein; "
          "lengths 0, 1, around multiples of 32 and up to 1300 (5000 thorough); 0..30 matrix rows). Observed per object: "
          "len(), obj[i] for every i in [-len-2, len+1] and around +-2^31, +-2^32, +-2^63, +-2^64, plus True/False and "
          "__index__ objects (value, exception class or PanicException), and of every memoryview its shape, strides, itemsize, format, ndim, nbytes, readonly, "
@@ -174,9 +178,9 @@ C18_SPEC = dict(
         "hand-written OCaml driver ocaml/pyidx/driver.ml (parsing, locating the failing part by re-running the extracted checker, comparison with the model)",
         "python harness pyharness/py/c18_driver.py run by lmpy (pyharness/src, owned by C17): generator, and the reference "
         "contents computed from constructor inputs (symbol tables of abc.rs; f32 re-computation of to_freq/to_weight; exact "
-        "dyadic scores; f64 re-computation of ScoreDistribution::from in the code's order of operations)",
+        "dyadic scores; f64 re-computation of ScoreDistribution::from — as repaired by 4832e71/d6e308b/5ab0464 — in the code's order of operations)",
         "CPython 3.11 memoryview (tolist/tobytes/element access follow shape/strides/format of the exported Py_buffer) and "
-        "PyO3 0.22 argument extraction (isize: OverflowError outside the ssize_t range), as modelled in PyIdxModel.v",
+        "PyO3 0.22 argument extraction (isize extraction fails outside the ssize_t range; lib.rs maps that to IndexError), as modelled in PyIdxModel.v",
         "translator translate/pyidx_slots.py (regex/brace-matching reader of lib.rs: slot table, __getbuffer__ constants, cached shape/strides arrays)",
         "coq/dense (C19): row stride and ravel() layout of DenseMatrix; closed form of Stripe::stripe (C04) taken as the definition of the striped table",
         "modelled, not verified: lib.rs itself (hand-written Gallina model of __len__/__getitem__/__getbuffer__ and of the cached shape/strides); "
@@ -186,7 +190,6 @@ C18_SPEC = dict(
         "a Vec / DenseMatrix never holds more than isize::MAX elements (hypothesis `llen <= ssize_max` of the index theorems)",
         "x86-64 build: 32 columns (AVX2 lanes) and 32-byte row alignment; element sizes u8=1, u32=4, f32=4, f64=8",
         "padding cells hold arbitrary values (the view theorems quantify over every storage that represents the table)",
-        "indices outside the ssize_t range are a known finding (OverflowError instead of IndexError): C18_getitem_spec is stated for ssize_t indices, C18_getitem_outside_ssize_refuted for the rest",
     ],
 )
 
